@@ -40,6 +40,13 @@ def tasks(tier, seed):
                 gap = rnd.choice(["exploitability", "l1_norm", "linf_norm"])
                 out.append({"key": f"n{n}/{comp}/{gap}/K={','.join(map(str, K))}/size={k}", "n": n, "K": K, "k": k,
                             "computer": comp, "gap": gap})
+    # consecutive linear steps with NO mask query in between (a cached mask must not go stale)
+    for n in (3, 4):
+        sizes = list(range(2, n))
+        seqs = [[a, b] for a in sizes for b in sizes] + ([[2, 2, 2]] if n == 3 else [[2, 3, 2], [3, 3, 2]])
+        for seq in seqs:
+            out.append({"key": f"blind/n{n}/sizes={','.join(map(str, seq))}", "n": n, "K": [], "k": -1, "seq": seq,
+                        "computer": rnd.choice(["superadditive", "superadditive_cached"]), "gap": "l1_norm"})
     return out
 
 
@@ -102,6 +109,18 @@ def scenario(pk, params, inp):
         obs0, _ = lin.reset()
         ex = [c.id for c in inner.explorable_coalitions]
         out = {"explorable": ex, "reset_obs": list(obs0), "reset_inner": list(inner.state), "reset_len": len(obs0)}
+        if params.get("seq"):
+            steps = []
+            for kk in params["seq"]:
+                before = [bool(game.is_value_known(C(S))) for S in range(2 ** n)]
+                if not any(F.popcount(S) == kk and not before[S] for S in ex):
+                    break
+                obs, reward, done, trunc, info = lin.step(kk)          # no action_masks() call in between
+                steps.append({"k": kk, "known_before": before, "known_after": [bool(game.is_value_known(C(S))) for S in range(2 ** n)],
+                              "chosen": int(info["chosen_coalition"]), "obs": list(obs), "inner_after": list(inner.state),
+                              "reward": reward, "inner_reward": inner.reward, "done": bool(done), "inner_done": bool(inner.done)})
+            out["blind_steps"] = steps
+            return out
         for S in params["K"]:
             inner.step(ex.index(S))
         out["mask"] = [bool(x) for x in lin.action_masks()]
@@ -134,9 +153,20 @@ def claims(params, inp, out, lg):
     n, k = params["n"], params["k"]
     ex = out["explorable"]
     known = set(F.minimal(n)) | set(params["K"])
-    cl = [("reset-observation-length-n", out["reset_len"] == n), ("mask-length-n", out["mask_len"] == n)]
+    cl = [("reset-observation-length-n", out["reset_len"] == n)]
     ref0 = _per_size(lg, out["reset_inner"], ex, n)
     cl.append(("reset-observation-per-size-sum", lg.And([lg.eq(a, b) for a, b in zip(out["reset_obs"], ref0)])))
+    if "blind_steps" in out:
+        for i, st in enumerate(out["blind_steps"]):
+            newly = [S for S in range(2 ** n) if st["known_after"][S] and not st["known_before"][S]]
+            cl.append((f"consecutive-step-{i}:exactly-one-new-known-of-that-size",
+                       len(newly) == 1 and F.popcount(newly[0]) == st["k"] and newly[0] in ex and st["chosen"] == newly[0]))
+            cl.append((f"consecutive-step-{i}:nothing-forgotten", all(st["known_after"][S] for S in range(2 ** n) if st["known_before"][S])))
+            refb = _per_size(lg, st["inner_after"], ex, n)
+            cl.append((f"consecutive-step-{i}:observation-per-size-sum", lg.And([lg.eq(a, b) for a, b in zip(st["obs"], refb)])))
+            cl.append((f"consecutive-step-{i}:reward-done-pass-through", lg.And(lg.eq(st["reward"], st["inner_reward"]), st["done"] == st["inner_done"])))
+        return cl
+    cl.append(("mask-length-n", out["mask_len"] == n))
     for s in range(n):
         exists = any(F.popcount(S) == s and S not in known for S in ex)
         cl.append((f"mask-iff-unknown-of-size:{s}", out["mask"][s] == exists))
@@ -161,7 +191,7 @@ def claims(params, inp, out, lg):
 
 
 def canaries(params, inp, out, lg):
-    if not out["stepped"]:
+    if "blind_steps" in out or not out["stepped"]:
         return []
     return [("canary-reward-below-minus-one", lg.le(out["reward"], lg.const(-1)))]
 
